@@ -1779,6 +1779,9 @@ theorem runInv_step (B : Nat) (s : Sys F) (e : Ev) (h : RunInv B s) (hm : KeepsM
     -- the verdict stamps are outside the accounting view; the hk arm's `Closed.soft` carries them
     exact ⟨hup (step_all s _ (fun arm ha => potInv_closed B _ arm _ (by cases ha; decide)) h.pot),
       h.classic, h.guard, h.reg⟩
+  | syncTimeout =>
+    exact ⟨hup (step_all s _ (fun arm ha => potInv_closed B _ arm _ (by cases ha; decide)) h.pot),
+      h.classic, h.guard, h.reg⟩
 
 /-- The states of a run: the left fold of `step` (`Sys.run … .1` is this fold: `SysLevel.run_eq_foldl`). -/
 def runS (s : Sys F) (evs : List Ev) : Sys F := evs.foldl (fun s e => (step s e).1) s
